@@ -211,6 +211,30 @@ func genPlan(r *Rng, d *DeclSpec) *Plan {
 	} else if d.Root != nil {
 		pos = d.Root.Pos
 	}
+	// a plain word may happen to be the name of a command that exists elsewhere
+	// in the tree (a sibling of an ancestor, a command further up or down): where
+	// it is not a subcommand of the innermost command it is an ordinary word
+	here := map[string]bool{}
+	for _, c := range level {
+		here[c.Name] = true
+		for _, a := range c.Aliases {
+			here[a] = true
+		}
+	}
+	var foreign []string
+	for _, c := range d.allCmds() {
+		for _, w := range append([]string{c.C.Name}, c.C.Aliases...) {
+			if !here[w] && !strings.HasPrefix(w, "-") && w != "" {
+				foreign = append(foreign, w)
+			}
+		}
+	}
+	word := func() string {
+		if len(foreign) > 0 && r.Chance(1, 6) {
+			return foreign[r.Intn(len(foreign))]
+		}
+		return r.Pick(plainWords)
+	}
 	var words []PTok
 	hasRestArg := false
 	for _, a := range pos {
@@ -224,11 +248,11 @@ func genPlan(r *Rng, d *DeclSpec) *Plan {
 				lo, hi = 1, 2
 			}
 			for i := r.Range(lo, hi); i > 0; i-- {
-				words = append(words, PTok{Text: r.Pick(plainWords), Role: "pos"})
+				words = append(words, PTok{Text: word(), Role: "pos"})
 			}
 			continue
 		}
-		w := r.Pick(plainWords)
+		w := word()
 		if a.Kind == "int" {
 			w = genPlainText(r, "uint")
 		}
@@ -236,7 +260,7 @@ func genPlan(r *Rng, d *DeclSpec) *Plan {
 	}
 	if !hasRestArg {
 		for i := r.Range(0, 2); i > 0 && r.Bool(); i-- {
-			w := r.Pick(plainWords)
+			w := word()
 			words = append(words, PTok{Text: w, Role: "rest"})
 			p.Rest = append(p.Rest, w)
 		}
